@@ -76,7 +76,7 @@ def effective_options(opts):
 
 
 def gen_apps(rng, specs, n_apps=(1, 3), n_progs=(1, 3), managed_p=0.85, max_numprocs=2, loads=(0, 30),
-             seq_max=3, per_instance_diff=0.0, allow_wait_exit=False, distribution=None,
+             seq_max=3, per_instance_diff=0.0, allow_wait_exit=False, distribution=None, restricted_p=None,
              startsecs=(0, 4), stopwaitsecs=(1, 4), strategies=True, identifiers_p=0.3,
              autorestart=('false', 'false', 'unexpected'), supvisors_failure_p=0.0):
     """ Returns (rules_model, groups_by_nick).
@@ -99,6 +99,9 @@ def gen_apps(rng, specs, n_apps=(1, 3), n_progs=(1, 3), managed_p=0.85, max_nump
             app['start_sequence'] = rng.randint(0, seq_max)
             app['stop_sequence'] = rng.choice([None, rng.randint(0, seq_max)])
             app['distribution'] = distribution or rng.choice(['ALL_INSTANCES'] * 3 + DISTRIBUTION[1:])
+            if restricted_p is not None and not distribution:
+                # (drawn from a separate generator so that the other draws of the scenario are unchanged)
+                app['distribution'] = rng.choice(DISTRIBUTION[1:]) if rng.random() < restricted_p else 'ALL_INSTANCES'
             app['identifiers'] = ['*'] if rng.random() > identifiers_p else \
                 rng.sample(nicks, rng.randint(1, len(nicks)))
             app['starting_strategy'] = rng.choice([None] + STARTING) if strategies else None
